@@ -14,12 +14,19 @@ use and kept for the whole case: it can be entered again nested in itself, neste
 Every event is executed through `Cache.transaction(mode)` / the `Cache` command facade on the transactional
 cache, and every command also on a second `Cache` whose `Memory` started as a copy of the first ("direct").
 After each event the raw backend stores are read without touching them (the outside observer).
+
+Reads: `get <k>` / `getmany <k>...` pass the harness's private sentinel object as `default` (answer `-` = not there);
+`get <k> d=<val>` / `getmany <k>... d=<val>` pass a value of the alphabet as the CALLER'S default (None, a small int,
+or the very token object that `set` stores: tokens are interned, so `set 0 t:1 - a` and `d=t:1` hand the library the
+identical object, as `x = "..."; set(k, x); get(k, default=x)` does).  Observable with default d: per key, the stored
+value if there is one, else d - "holds d" and "missing" are the same answer, told apart from other keys by position only.
 """
 from __future__ import annotations
 
 import asyncio
 import contextvars
 import copy
+import sys
 from collections import OrderedDict
 
 from . import memhist, vtime
@@ -81,6 +88,53 @@ def normalize(events: list[str]) -> list[str]:
             continue
         out.append(e)
     return out + ["exit ok"] * len(stack)
+
+
+def split_default(w: list[str]):
+    """words of a command -> (words without the `d=<val>` suffix, '<val>' or None)"""
+    if len(w) > 1 and w[-1].startswith("d="):
+        return w[:-1], w[-1][2:]
+    return w, None
+
+
+def value_object(tok: str):
+    """the Python object of a value token; equal tokens give the IDENTICAL object (None and small ints are
+    singletons in CPython, the 't<n>' strings are interned here)"""
+    v = memhist.val_of(tok)
+    return sys.intern(v) if isinstance(v, str) else v
+
+
+class _SameObjects:
+    """the `Cache` facade, with string values interned on their way in, so that a value written and a default
+    passed later can be one and the same object"""
+
+    def __init__(self, api):
+        self._api = api
+
+    def __getattr__(self, name):
+        return getattr(self._api, name)
+
+    async def set(self, key, value, **kw):
+        return await self._api.set(key, sys.intern(value) if isinstance(value, str) else value, **kw)
+
+    async def set_many(self, pairs, **kw):
+        return await self._api.set_many({k: sys.intern(v) if isinstance(v, str) else v for k, v in pairs.items()}, **kw)
+
+
+class _Exec(memhist.Runner):
+    """memhist's executor + reads with a caller-supplied default (`get <k> d=<val>`, `getmany <k>... d=<val>`)"""
+
+    async def _exec(self, w: list[str]) -> str:
+        w, d = split_default(w)
+        if d is None:
+            return await super()._exec(w)
+        default = value_object(d)
+        if w[0] == "get":
+            return "v=" + show_val(await self.api.get(KEYNAMES[int(w[1])], default=default))
+        if w[0] == "getmany":
+            r = await self.api.get_many(*[KEYNAMES[int(x)] for x in w[1:]], default=default)
+            return "vs=" + ",".join(show_val(v) for v in r)
+        raise ValueError(f"bad op {w}: only reads take a default")
 
 
 class TxRunner:
@@ -164,8 +218,29 @@ class TxRunner:
                 self.bump("shared_object_reused_sequentially")
             self.used_outer.add(kind)
 
+    def _classify_default(self, txb, w: list[str], d: str):
+        """interesting states of a read with a caller-supplied default (peeks, statistics only)"""
+        self.bump("read_with_caller_default")
+        default = value_object(d)
+        for x in w[1:]:
+            name = KEYNAMES[int(x)]
+            ov = txb._local_cache.store.get(name)
+            ent = self.backend.store.get(name)
+            in_store = ent is not None and not (ent[0] is not None and ent[0] <= CLOCK.t)
+            if name in txb._to_delete and in_store:
+                self.bump("caller_default_read_of_pending_delete")
+            if ov is not None and ov[1] is default:
+                self.bump(f"{w[0]}_default_is_the_buffered_object")
+                if in_store:
+                    self.bump(f"{w[0]}_default_is_the_buffered_object_store_holds_another_value")
+            elif ov is None and name not in txb._to_delete:
+                self.bump("caller_default_read_of_unbuffered_key" if in_store else "caller_default_read_of_missing_key")
+
     def _classify(self, w: list[str]):
         txb = self._txb()
+        w, d = split_default(w)
+        if txb is not None and d is not None:
+            self._classify_default(txb, w, d)
         if txb is None or w[0] in ("adv", "getmany", "setmany", "delmany"):
             if txb is not None and w[0] == "getmany":
                 if any(KEYNAMES[int(x)] in txb._to_delete for x in w[1:]):
@@ -227,10 +302,10 @@ class TxRunner:
         self.direct = Cache()
         self.dbackend = self.direct.setup(url)
         await self.direct.init()
-        self.r_tx = memhist.Runner("facade", 1000)
-        self.r_tx.api, self.r_tx.backend = self.cache, self.backend
-        self.r_d = memhist.Runner("facade", 1000)
-        self.r_d.api, self.r_d.backend = self.direct, self.dbackend
+        self.r_tx = _Exec("facade", 1000)
+        self.r_tx.api, self.r_tx.backend = _SameObjects(self.cache), self.backend
+        self.r_d = _Exec("facade", 1000)
+        self.r_d.api, self.r_d.backend = _SameObjects(self.direct), self.dbackend
 
     async def _command(self, line: str, init: bool = False):
         w = line.split()
@@ -481,7 +556,7 @@ def gen_init(rng, shape=None) -> list[str]:
     shape = shape or [rng.choice(["absent", "plain", "ttl", "expired"]) for _ in USER_KEYS]
     lines = []
     for k, s in zip(USER_KEYS, shape):
-        v = rng.choice(VALS[:-1])
+        v = rng.choice(VALS)
         if s == "plain":
             lines.append(f"set {k} {v} - a")
         elif s == "ttl":
@@ -490,6 +565,33 @@ def gen_init(rng, shape=None) -> list[str]:
             lines.append(f"set {k} {v} {rng.choice([1, 2, 3])} a")
     lines.append("adv 3")
     return lines
+
+
+def gen_default(rng, prefer: str | None = None) -> str:
+    """the `default` of a read: the harness's private sentinel ('' - the full answer is observed), or a value of the
+    alphabet as the caller's default (` d=<val>`), `prefer` (a value just written) more often than the others"""
+    r = rng.random()
+    if r < 0.5:
+        return ""
+    if prefer is not None and r < 0.85:
+        return f" d={prefer}"
+    return f" d={rng.choice(VALS)}"
+
+
+def look_back(rng, w: list[str]) -> str:
+    """a read of the key just written by command `w`, from inside the transaction; when a default is passed it is
+    preferably the value just written (`set k v` -> `get k d=v`; `incr k by` -> `get k d=i:<by>`, what a counter
+    started by this `incr` now holds; `delete` / `expire` -> None, the default default)"""
+    key = w[1]
+    wrote = w[2] if w[0] == "set" else f"i:{w[2]}" if w[0] == "incr" else "n"
+    what = rng.choice(["get", "get", "get", "exists", "getexpire", "getmany"])
+    if what == "get":
+        return f"get {key}" + gen_default(rng, wrote)
+    if what == "getmany":
+        ks = [key, str(rng.choice(USER_KEYS))]
+        rng.shuffle(ks)
+        return "getmany " + " ".join(ks) + gen_default(rng, wrote)
+    return f"{what} {key}"
 
 
 def gen_command(rng, ttls) -> str:
@@ -508,9 +610,9 @@ def gen_command(rng, ttls) -> str:
         ks = rng.sample(USER_KEYS, rng.randint(1, 3))
         return f"setmany {ttl()} " + " ".join(f"{x}={rng.choice(VALS)}" for x in ks)
     if op == "get":
-        return f"get {k()}"
+        return f"get {k()}" + gen_default(rng)
     if op == "getmany":
-        return "getmany " + " ".join(k() for _ in range(rng.randint(1, 4)))
+        return "getmany " + " ".join(k() for _ in range(rng.randint(1, 4))) + gen_default(rng)
     if op == "exists":
         return f"exists {k()}"
     if op == "incr":
@@ -591,8 +693,7 @@ def gen_events(rng, maxlen: int, crossing: bool) -> list[str]:
                 w = c.split()
                 if w[0] in ("set", "incr", "delete", "expire") and rng.random() < 0.3:
                     # look at the key just written, from inside the transaction
-                    ev.append(rng.choice([f"get {w[1]}", f"get {w[1]}", f"exists {w[1]}", f"getexpire {w[1]}",
-                                          f"getmany {w[1]} {rng.choice(USER_KEYS)}"]))
+                    ev.append(look_back(rng, w))
         end = rng.choice(["ok", "ok", "ok", "exc"])
         while opened > 1:
             ev.append(f"exit {end if end == 'exc' else rng.choice(['ok', 'exc'])}")
@@ -642,6 +743,29 @@ def nesting_cases(rng=None):
                 ev += ["set 4 t:5 16 a", "adv 1", "get 0", f"exit {xs[0]}", "getexpire 4"]
                 ev += [en(shape[0]), en(shape[0]), "delete 0", "exit ok", "incr 2 1 -", "exit ok"]
                 yield {"config": "facade", "init": ["set 4 i:1 - a", "adv 3"], "events": ev}
+
+
+DEFAULT_ALPHABET = ["n", "i:0", "i:1", "t:1"]
+
+
+def default_cases(rng=None):
+    """The caller-default sub-space, enumerated: key 0 initially {absent} + every value of a 4-value alphabet (None, 0, 1,
+    a token) and key 2 holding a token, x one earlier command of the transaction on key 0 (nothing / set always / set
+    only-if-present / set only-if-absent / set_many, each with every value of the alphabet / incr / expire / delete /
+    delete_many) x one read of key 0 (get, get_many [0 2], get_many [2 0 4]) with every default (the private sentinel +
+    every value of the alphabet); the same read is repeated after the block.  With `rng`: one mode per case drawn from
+    it (quick tier); without: all three modes."""
+    A = DEFAULT_ALPHABET
+    inits = [[]] + [[f"set 0 {v} - a"] for v in A]
+    writes = [[]] + [[f"set 0 {v} - {c}"] for v in A for c in ("a", "xx", "nx")] + [[f"setmany - 0={v}"] for v in A]
+    writes += [["incr 0 1 -"], ["expire 0 80"], ["delete 0"], ["delmany 0 4"]]
+    reads = [f"{r}{d}" for r in ("get 0", "getmany 0 2", "getmany 2 0 4") for d in [""] + [f" d={v}" for v in A]]
+    for ini in inits:
+        for wr in writes:
+            for rd in reads:
+                for mode in ([rng.choice(MODES)] if rng is not None else MODES):
+                    yield {"config": "facade", "init": ini + ["set 2 t:2 - a", "adv 3"],
+                           "events": [f"enter {mode}", *wr, rd, "exit ok", rd]}
 
 
 def _products(alphabet, n):
